@@ -150,6 +150,9 @@ func HandleBulkBody(postBody []byte, ctx *fasthttp.RequestCtx, rid uint64, myid 
 	var jsParsingStackbuf [utils.UnescapeStackBufSize]byte
 
 	allPLEs := make([]*writer.ParsedLogEvent, 0)
+	// response item of each event, so that a store failure can be reported on it
+	pleToItemIdx := make(map[*writer.ParsedLogEvent]int)
+	numCreated := 0
 	defer func() {
 		writer.ReleasePLEs(allPLEs)
 	}()
@@ -159,9 +162,12 @@ func HandleBulkBody(postBody []byte, ctx *fasthttp.RequestCtx, rid uint64, myid 
 	remainingPostBody := postBody
 	for {
 		line, remainingPostBody = utils.ReadLine(remainingPostBody)
-		if len(remainingPostBody) == 0 {
+		if len(line) == 0 && len(remainingPostBody) == 0 {
 			break
 		}
+
+		// the size check applies to this item only
+		maxRecordSizeExceeded = false
 
 		inCount++
 		if inCount >= len(items) {
@@ -216,6 +222,7 @@ func HandleBulkBody(postBody []byte, ctx *fasthttp.RequestCtx, rid uint64, myid 
 						success = false
 					} else {
 						allPLEs = append(allPLEs, ple)
+						pleToItemIdx[ple] = inCount - 1
 					}
 				}
 			} else {
@@ -239,6 +246,7 @@ func HandleBulkBody(postBody []byte, ctx *fasthttp.RequestCtx, rid uint64, myid 
 				error_response := utils.BulkErrorResponse{
 					ErrorResponse: *utils.NewBulkErrorResponseInfo("request entity too large", "request_entity_exception"),
 				}
+				overallError = true
 				responsebody["index"] = error_response
 				responsebody["status"] = 413
 				items[inCount-1] = responsebody
@@ -252,7 +260,7 @@ func HandleBulkBody(postBody []byte, ctx *fasthttp.RequestCtx, rid uint64, myid 
 				items[inCount-1] = responsebody
 			}
 		} else {
-			atleastOneSuccess = true
+			numCreated++
 			items[inCount-1] = resp_status_201
 		}
 	}
@@ -267,9 +275,24 @@ func HandleBulkBody(postBody []byte, ctx *fasthttp.RequestCtx, rid uint64, myid 
 			jsParsingStackbuf[:], plesInBatch)
 		if err != nil {
 			log.Errorf("HandleBulkBody: failed to process index request, indexName=%v, err=%v", indexName, err)
-			// TODO: update `atleastOneSuccess`
+			// none of this batch was stored: do not report its items as created
+			overallError = true
+			for _, ple := range plesInBatch {
+				idx, ok := pleToItemIdx[ple]
+				if !ok {
+					continue
+				}
+				responsebody := make(map[string]interface{})
+				responsebody["index"] = utils.BulkErrorResponse{
+					ErrorResponse: *utils.NewBulkErrorResponseInfo("indexing request failed", "mapper_parse_exception"),
+				}
+				responsebody["status"] = 400
+				items[idx] = responsebody
+				numCreated--
+			}
 		}
 	}
+	atleastOneSuccess = numCreated > 0
 
 	usageStats.UpdateStats(uint64(bytesReceived), uint64(inCount), myid)
 	timeTook := time.Now().UnixNano() - (startTime)
